@@ -230,3 +230,106 @@ Fixpoint norm (e : env) (t : ty) {struct t} : ty :=
       if existsb is_nil ms then mk_nullable e base else base
   | _ => t
   end.
+
+(* ------------------------------------------------------------------------------------------ *)
+(** * "The same type": equality modulo the order of union members (what [PartialEq for LuaUnionType] means) *)
+
+Definition ukind_eqb (a b : ukind) : bool :=
+  match a, b with UBasic, UBasic | UNullable, UNullable | UMulti, UMulti => true | _, _ => false end.
+
+Fixpoint ty_eqv (a b : ty) {struct a} : bool :=
+  match a, b with
+  | TPrim p, TPrim q => prim_eqb p q
+  | TStr s, TStr s' => text_eqb s s'
+  | TInt z, TInt z' => Z.eqb z z'
+  | TBool x, TBool y => Bool.eqb x y
+  | TRef n, TRef n' => text_eqb n n'
+  | TTableConst, TTableConst => true
+  | TArray x, TArray y => ty_eqv x y
+  | TTableGeneric xs, TTableGeneric ys =>
+      (fix go (xs ys : list ty) : bool :=
+         match xs, ys with
+         | [], [] => true
+         | x :: xs', y :: ys' => ty_eqv x y && go xs' ys'
+         | _, _ => false
+         end) xs ys
+  | TObject xs, TObject ys =>
+      (fix go (xs ys : list (key * ty)) : bool :=
+         match xs, ys with
+         | [], [] => true
+         | (k, x) :: xs', (k', y) :: ys' => key_eqb k k' && ty_eqv x y && go xs' ys'
+         | _, _ => false
+         end) xs ys
+  | TFun xs, TFun ys =>
+      (fix go (xs ys : list (text * option ty)) : bool :=
+         match xs, ys with
+         | [], [] => true
+         | (n, ox) :: xs', (n', oy) :: ys' =>
+             text_eqb n n'
+             && match ox, oy with
+                | Some x, Some y => ty_eqv x y
+                | None, None => true
+                | _, _ => false
+                end
+             && go xs' ys'
+         | _, _ => false
+         end) xs ys
+  | TUnion k xs, TUnion k' ys =>
+      ukind_eqb k k' && (List.length xs =? List.length ys)%nat
+      && (fix all (l : list ty) : bool :=
+            match l with [] => true | x :: r => existsb (ty_eqv x) ys && all r end) xs
+      && forallb (fun y => (fix any (l : list ty) : bool :=
+                              match l with [] => false | x :: r => ty_eqv x y || any r end) xs) ys
+  | _, _ => false
+  end.
+
+(** the variant [LuaUnionType::from_vec] gives a member list *)
+Definition kind_of (ms : list ty) : ukind :=
+  if all_prim ms then UBasic
+  else if (List.length ms =? 2)%nat && existsb is_nil ms then UNullable
+  else UMulti.
+
+Fixpoint nodup_ty (l : list ty) : bool :=
+  match l with
+  | [] => true
+  | x :: r => negb (mem_ty x r) && nodup_ty r
+  end.
+
+(** [T?] of a single member [T] is absorbed or expanded by the reader when [T] is [unknown], or is (an alias
+    of) [any], [never], [nil] or a union *)
+Definition nullable_base_ok (e : env) (x : ty) : bool :=
+  negb (is_unknown x)
+  && match real_type e x with
+     | TPrim PAny | TPrim PNever | TPrim PNil | TUnion _ _ => false
+     | _ => true
+     end.
+
+(** the shape the annotation reader gives its types (variants and arities of unions, no array of [unknown]) *)
+Fixpoint annot_form (e : env) (t : ty) {struct t} : bool :=
+  match t with
+  | TArray b => negb (is_unknown b) && annot_form e b
+  | TTableGeneric ps => forallb (annot_form e) ps
+  | TObject fs => forallb (fun f : key * ty => annot_form e (snd f)) fs
+  | TFun ps => forallb (fun p : text * option ty => match snd p with Some pt => annot_form e pt | None => true end) ps
+  | TUnion k ms =>
+      ukind_eqb k (kind_of ms)
+      && (List.length ms =? List.length (non_nil ms) + (if existsb is_nil ms then 1 else 0))%nat
+      && forallb (annot_form e) ms
+  | _ => true
+  end.
+
+(** the two recorded classes of unions whose reading back is a different (semantically equal) type:
+    an optional [T?] whose only member is absorbed or expanded ([any?], [unknown?], [never?]), or two members
+    with the same normal form *)
+Fixpoint known (e : env) (t : ty) {struct t} : bool :=
+  match t with
+  | TArray b => known e b
+  | TTableGeneric ps => existsb (known e) ps
+  | TObject fs => existsb (fun f : key * ty => known e (snd f)) fs
+  | TFun ps => existsb (fun p : text * option ty => match snd p with Some pt => known e pt | None => false end) ps
+  | TUnion _ ms =>
+      match non_nil ms with [x] => negb (nullable_base_ok e x) | _ => false end
+      || negb (nodup_ty (map (norm e) (non_nil ms)))
+      || existsb (known e) ms
+  | _ => false
+  end.
